@@ -26,6 +26,39 @@ Proof.
   destruct sl; try congruence; try discriminate.
 Qed.
 
+Lemma bind_assoc {A B C} (m : M A) (f : A -> M B) (g : B -> M C) s :
+  bind m (fun a => bind (f a) g) s = bind (bind m f) g s.
+Proof. unfold bind. destruct (m s) as [[a s1]|]; reflexivity. Qed.
+
+Lemma home_shrink s s' e r : shrink s s' -> home s' e = Some r -> home s e = Some r.
+Proof.
+  intros (A1 & A2 & A3 & A4 & A5 & A6 & A7 & A8 & A9 & A10 & A11 & A12 & A13 & A14).
+  unfold home. rewrite A2, A6, A7. destruct (tagof s e) as [|k|k]; [auto| |].
+  - destruct (A4 e) as [-> | ->]; [auto|discriminate].
+  - destruct k; auto. destruct (A14 e) as [-> | ->]; [auto|discriminate].
+Qed.
+
+(* destructor runs add nothing to any ring *)
+Lemma ring_subset X X' W W' D D' T T' G G' s s' :
+  inv X W D T G s -> inv X' W' D' T' G' s' -> shrink s s' -> incl X X' ->
+  forall e o sl, In e (G' o sl) -> In e (G o sl).
+Proof.
+  intros Hi Hi' Hsh HX e o sl Hin.
+  destruct (member_facts _ _ _ _ _ _ _ _ _ _ Hi' Hin) as (Ha & _ & Hh & Hnx & _).
+  apply (i_mem2 _ _ _ _ _ _ _ Hi).
+  - destruct Hsh as (_ & _ & A3 & _). now apply A3.
+  - intros H. apply Hnx. now apply HX.
+  - eapply home_shrink; eassumption.
+Qed.
+
+Lemma ring_nil_preserved X X' W W' D D' T T' G G' s s' o sl :
+  inv X W D T G s -> inv X' W' D' T' G' s' -> shrink s s' -> incl X X' ->
+  G o sl = [] -> G' o sl = [].
+Proof.
+  intros Hi Hi' Hsh HX Hnil. apply nil_if_no_member. intros e Hin.
+  pose proof (ring_subset _ _ _ _ _ _ _ _ _ _ _ _ Hi Hi' Hsh HX e o sl Hin) as H. rewrite Hnil in H. destruct H.
+Qed.
+
 Lemma logged_in_D X W D T G s o : inv X W D T G s -> In o D -> In o (dlog s).
 Proof.
   intros Hi Hin. apply (i_log _ _ _ _ _ _ _ Hi). destruct (i_D _ _ _ _ _ _ _ Hi o Hin) as [_ Ht]. tauto.
@@ -34,7 +67,7 @@ Qed.
 (* ~modeBuffer_t of a plain (or pool-internal) buffer *)
 Lemma delete_buf f X W D T G s b :
   inv X W D T G s -> alive s b = true -> tagof s b = TO KBuf -> ~ In b D -> In b W ->
-  (forall x, In x D -> tagof s x <> TO KMem) ->
+  (forall x, In x D -> ~ In x (G b SMem)) ->
   (forall p, alive s p = true -> ~ In p W -> oinner s p <> Some b) ->
   measure s + 4 <= f ->
   exists G' s', exec f (TDelete b) s = Some (tt, s') /\ inv X W D T G' s' /\ alive s' b = false /\
@@ -50,8 +83,9 @@ Proof.
   assert (Hm1 : measure s1 = measure s) by apply measure_dlog.
   destruct (children_spec vkind (measure s1) f X W (b :: D) T G s1 b) as
       (G2 & s2 & Hex2 & Hi2 & Hnil2 & Hb2 & Hsh2 & Hk2); try assumption; try lia.
-  { intros x [<-|Hx]; [unfold s1; simpl_st; congruence|]. unfold s1. simpl_st. now apply HD. }
-  pose proof Hsh2 as (E1 & Etag & Eal & Ehp & Evars & Eodev & Egin & Ecur & Euse & Edus & Emoff & Eps & Eoin).
+  { intros x [<-|Hx] Hx2; [|exact (HD x Hx Hx2)].
+    destruct (i_own _ _ _ _ _ _ _ Hi _ _ _ Hx2) as [_ Hfit]. apply fits_SMem in Hfit as [Hc _]. congruence. }
+  pose proof Hsh2 as (E1 & Etag & Eal & Ehp & Evars & Eodev & Egin & Ecur & Euse & Edus & Emoff & Eps & Eoin & Eob).
   assert (Ht2 : tagof s2 b = TO KBuf) by (rewrite Etag; exact Ht).
   destruct (i_dev _ _ _ _ _ _ _ Hi2 b KBuf Hb2 Ht2 ltac:(discriminate) ltac:(discriminate)) as (d & Hd1 & Hd2 & Hd3).
   assert (Hbd : b <> d) by (intros ->; congruence).
@@ -142,6 +176,7 @@ Proof.
   erewrite bind_run by exact R1. erewrite bind_run by apply get_run. rewrite R2. cbv beta iota.
   erewrite bind_run by exact R3.
   assert (Hm1 : measure s1 = measure s) by apply measure_dlog.
+  assert (Hsh01 : shrink s s1) by apply shrink_dlog.
   (* NULL all wrappers *)
   destruct (null_spec vkind (length (G p SH)) f X W (p :: D) T G s1 p eq_refl) as
       (s2 & Hex2 & Hi2 & Hsh2 & Hal2 & Hob2 & Hoi2 & Hdl2 & Hpr2); try assumption.
@@ -154,7 +189,7 @@ Proof.
   (* the pool's own buffer *)
   assert (Hstep3 : exists G3 s3,
      (ib <- rd oinner p;; match ib with Some ib0 => exec f (TDelete ib0) | None => ret tt end) s2 = Some (tt, s3) /\
-     inv X W (p :: D) T G3 s3 /\ shrink s2 s3 /\ alive s3 p = true /\ G3 p SMem = G2 p SMem /\ G3 p SH = [] /\
+     inv X W (p :: D) T G3 s3 /\ shrink s2 s3 /\ alive s3 p = true /\
      (forall x, alive s2 x = true -> alive s3 x = false -> oinner s p = Some x) /\
      (forall b, oinner s p = Some b -> alive s3 b = false)).
   { erewrite bind_run by (apply rd_run; exact Hp2). rewrite Hoi2. unfold s1. simpl_st.
@@ -170,21 +205,103 @@ Proof.
       + exact Htb2.
       + intros [E|H]; [congruence|]. destruct (HD ib H) as [_ Hn]. congruence.
       + now left.
-      + intros x [<-|Hx]; [rewrite Ht2; discriminate|]. rewrite Etag. unfold s1. simpl_st. now apply HD.
+      + intros x Hx Hx2. rewrite (proj2 (i_ginner _ _ _ _ _ _ _ Hi2 ib Hg2)) in Hx2. destruct Hx2.
       + intros p' Hap' Hw' E. apply Hw'. right.
         assert (p' = p); [|subst; exact Hw].
         apply (i_inner_inj _ _ _ _ _ _ _ Hi2 p' p ib Hap' Hp2 E). rewrite Hoi2. unfold s1. simpl_st. exact Eib.
       + lia.
       + exists G3, s3. split; [exact Hex3|].
         assert (Hnil : G2 ib SMem = []) by (apply (i_ginner _ _ _ _ _ _ _ Hi2 ib Hg2)).
+        assert (Honly : forall x, alive s2 x = true -> alive s3 x = false -> x = ib).
+        { intros x H1 H2. destruct (Hk3 x H1 H2) as [E2|E2]; [exact E2|]. rewrite Hnil in E2. destruct E2. }
         assert (Hp3 : alive s3 p = true).
-        { destruct (alive s3 p) eqn:E; [reflexivity|]. destruct (Hk3 p Hp2 E) as [E2|E2]; [congruence|].
-          rewrite Hnil in E2. destruct E2. }
-        split; [eapply inv_unW_dead; eassumption|]. split; [exact Hsh3|]. split; [exact Hp3|].
-        admit_frameG.
+        { destruct (alive s3 p) eqn:E; [reflexivity|]. exfalso. apply Hpib. now apply Honly. }
+        split; [eapply inv_unW_dead; eassumption|]. split; [exact Hsh3|]. split; [exact Hp3|]. split.
+        * intros x H1 H2. f_equal. symmetry. now apply Honly.
+        * intros b Eb. injection Eb as <-. exact Hd3.
     - exists G2, s2. split; [reflexivity|]. split; [exact Hi2|]. split; [apply shrink_refl|]. split; [exact Hp2|].
-      split; [reflexivity|]. split; [apply upd2_same|]. split; [intros x H1 H2; congruence|]. intros b Hb. discriminate. }
-  admit_rest.
-Abort.
+      split; [intros x H1 H2; congruence|]. intros b Hb. discriminate. }
+  destruct Hstep3 as (G3 & s3 & Hex3 & Hi3 & Hsh3 & Hp3 & Hk3 & Hibdead).
+  (* size = 0 *)
+  set (s4 := set_osize s3 (upd (osize s3) p 0%Z)).
+  assert (Hi4 : inv X W (p :: D) T G3 s4) by (apply inv_set_osize; exact Hi3).
+  assert (Hsh34 : shrink s3 s4) by apply shrink_osize.
+  assert (Hsh04 : shrink s s4).
+  { eapply shrink_trans; [exact Hsh01|]. eapply shrink_trans; [exact Hsh2|]. eapply shrink_trans; eassumption. }
+  assert (Hm4 : measure s4 <= measure s) by (now apply shrink_measure).
+  (* slices *)
+  destruct (children_spec vkind (measure s4) f X W (p :: D) T G3 s4 p) as
+      (G5 & s5 & Hex5 & Hi5 & Hnil5 & Hp5 & Hsh5 & Hk5); try assumption; try lia.
+  { intros x Hx Hx2. destruct (i_own _ _ _ _ _ _ _ Hi4 _ _ _ Hx2) as [_ Hfit]. apply fits_SMem in Hfit as [Hc _].
+    destruct Hsh04 as (_ & E & _). rewrite E in Hc. destruct Hx as [<-|Hx]; [congruence|].
+    destruct (HD x Hx). congruence. }
+  assert (Hsh05 : shrink s s5) by (eapply shrink_trans; eassumption).
+  pose proof Hsh05 as (F1 & Ftag & Fal & Fhp & Fvars & Fodev & Fgin & Fcur & Fuse & Fdus & Fmoff & Fps & Foin & Fob).
+  assert (Ht5 : tagof s5 p = TO KPool) by (rewrite Ftag; exact Ht).
+  destruct (i_dev _ _ _ _ _ _ _ Hi5 p KPool Hp5 Ht5 ltac:(discriminate) ltac:(discriminate)) as (d & Hd1 & Hd2 & Hd3).
+  assert (Hpd : p <> d) by (intros ->; congruence).
+  set (s6 := set_obytes s5 (upd (obytes s5) d (obytes s5 d - osize s5 p)%Z)).
+  assert (Hi6 : inv X W (p :: D) T G5 s6) by (apply inv_set_obytes; exact Hi5).
+  assert (Hcase : In p (G5 d SBuf) \/ free_of G5 p).
+  { destruct (in_dec Nat.eq_dec p X) as [Hx|Hx]; [right; eapply exempt_free; eassumption|].
+    left. apply (i_mem2 _ _ _ _ _ _ _ Hi5); try assumption. unfold home. now rewrite Ht5, Hd1. }
+  destruct (detach_dev vkind X W (p :: D) T G5 s6 p d SBuf Hi6) as (s7 & G7 & Hrun7 & Hsame7 & Hi7 & HG7);
+    try assumption; try discriminate.
+  pose proof Hsame7 as (S1 & S2 & S3 & S4 & S5 & S6 & S7 & S8 & S9 & S10 & S11 & S12 & S13 & S14 & S15 & S16 & S17 & S18).
+  assert (Hp7 : alive s7 p = true) by (rewrite S3; exact Hp5).
+  assert (Hbody : ((exec f (TNull p);;; ib <- rd oinner p;;
+                     match ib with Some ib0 => exec f (TDelete ib0) | None => ret tt end;;; wr_osize p 0%Z);;;
+            exec f (TChildren p);;; d0 <- rd odev p;;
+            match d0 with
+            | Some d1 => sz <- rd osize p;; bt <- rd obytes d1;; wr_obytes d1 (bt - sz)%Z;;; ring_removeRef d1 SBuf p
+            | None => ret tt end) s1 = Some (tt, s7)).
+  { assert (Hpre : (exec f (TNull p);;; ib <- rd oinner p;;
+                     match ib with Some ib0 => exec f (TDelete ib0) | None => ret tt end;;; wr_osize p 0%Z) s1
+                   = Some (tt, s4)).
+    { erewrite bind_run by exact Hex2. rewrite bind_assoc. erewrite bind_run by exact Hex3. apply wr_osize_run. exact Hp3. }
+    erewrite bind_run by exact Hpre. erewrite bind_run by exact Hex5.
+    erewrite bind_run by (apply rd_run; exact Hp5). rewrite Hd1.
+    erewrite bind_run by (apply rd_run; exact Hp5). erewrite bind_run by (apply rd_run; exact Hd2).
+    erewrite bind_run by (apply wr_obytes_run; exact Hd2). exact Hrun7. }
+  erewrite bind_run by exact Hbody.
+  rewrite (kill_run p s7 Hp7).
+  assert (Ht7 : tagof s7 p = TO KPool) by (rewrite S2; exact Ht5).
+  assert (HSH5 : G5 p SH = []).
+  { assert (H3 : G3 p SH = []).
+    { eapply ring_nil_preserved; [exact Hi2|exact Hi3|exact Hsh3|apply incl_refl|]. apply upd2_same. }
+    eapply ring_nil_preserved; [exact Hi3|exact Hi5| |apply incl_refl|exact H3].
+    exact (shrink_trans _ _ _ Hsh34 Hsh5). }
+  exists G7, (set_alive s7 (upd (alive s7) p false)). split; [reflexivity|]. split; [|split; [|split]].
+  - eapply kill_obj; try exact Hi7.
+    + now right.
+    + exact Hp7.
+    + exists KPool. exact Ht7.
+    + exact Hd.
+    + eapply exempt_free; [exact Hi7|now left].
+    + intros sl. rewrite HG7. destruct sl; try (eapply pool_rings; try eassumption; discriminate); assumption.
+    + eapply logged_in_D; [exact Hi7|now left].
+    + intros p' Hap' Hpw E. destruct (i_inner _ _ _ _ _ _ _ Hi7 p' p Hap' Hpw E) as (_ & _ & Hc & _). congruence.
+    + intros x k' Hax Hxb Htx Hk1' Hk2' E.
+      destruct (i_dev _ _ _ _ _ _ _ Hi7 x k' Hax Htx Hk1' Hk2') as (d' & Hd1' & _ & Hd3').
+      rewrite E in Hd1'. injection Hd1' as <-. congruence.
+    + intros E. congruence.
+    + intros b0 E Hab. exfalso. rewrite S8 in E. unfold s6 in E. simpl_st. rewrite Foin in E.
+      rewrite S3 in Hab. unfold s6 in Hab. simpl_st.
+      assert (alive s3 b0 = false) by (now apply Hibdead).
+      destruct Hsh5 as (_ & _ & A3 & _). destruct Hsh34 as (_ & _ & B3 & _).
+      rewrite (B3 b0 (A3 b0 Hab)) in H. discriminate.
+  - simpl_st. apply upd_same.
+  - eapply shrink_trans; [exact Hsh05|].
+    eapply shrink_trans; [apply shrink_obytes|].
+    eapply shrink_trans; [apply same_obj_shrink; exact Hsame7|apply shrink_kill].
+  - intros x Hx1 Hx2. simpl_st. destruct (Nat.eq_dec x p) as [->|Hne]; [now left|]. right.
+    rewrite upd_other in Hx2 by exact Hne. rewrite S3 in Hx2. unfold s6 in Hx2. simpl_st.
+    destruct (alive s4 x) eqn:E4.
+    + right. specialize (Hk5 x E4 Hx2).
+      assert (Hsub : In x (G2 p SMem)).
+      { eapply ring_subset; [exact Hi2|exact Hi4|eapply shrink_trans; eassumption|apply incl_refl|exact Hk5]. }
+      unfold G2 in Hsub. rewrite upd2_other in Hsub by (right; discriminate). exact Hsub.
+    + left. unfold s4 in E4. simpl_st. apply Hk3; [|exact E4]. rewrite Hal2. unfold s1. simpl_st. exact Hx1.
+Qed.
 
 End E.
